@@ -23,6 +23,15 @@ MUTANTS = {"drop_status": "ExitReflectsVerdict", "swallow": "ExitReflectsVerdict
 SUCCESS = re.compile(r"success|verified", re.I)
 FAILURE = re.compile(r"fail|error|abort|traceback", re.I)
 
+
+def reports_success(text):
+    """Some LINE of the output reports success (and does not negate it): a rejection must not be accompanied by such a line, even when a
+    failure message follows."""
+    for line in text.splitlines():
+        if re.search(r"(?<!un)success|\bverified\b", line, re.I) and not re.search(r"\bnot\b|\bno\b|fail|error|unsuccess|could|cannot|can't|without|abort|traceback|exception", line, re.I):
+            return True
+    return False
+
 SSLIB_STANDIN = {
     "securesystemslib/__init__.py": "",
     "securesystemslib/formats.py": "GPG_ED25519_PUBKEY_METHOD_STRING = 'pgp+eddsa-ed25519'\nGPG_HASH_ALGORITHM_STRING = 'pgp+SHA2'\n",
@@ -263,7 +272,7 @@ def check(run):
                                         {"status": status, "output": text[-1500:], "trusted": repr(trusted)[:3000], "untrusted": repr(un)[:3000]}))
             if exp["zero"] and not SUCCESS.search(text):
                 res["problems"].append((f"verify-metadata via {entry}: acceptance without a success message", {"output": text[-1500:]}))
-            if not exp["zero"] and SUCCESS.search(text) and not FAILURE.search(text):
+            if not exp["zero"] and (SUCCESS.search(text) and not FAILURE.search(text) or reports_success(text)):
                 res["problems"].append((f"verify-metadata via {entry}: success message on a rejection ({lv})", {"output": text[-1500:]}))
         elif cmd == "sign-artifacts":
             so = c["signout"]
